@@ -314,7 +314,7 @@ prop("C01",
                 "open elements of any depth and an arbitrary current node: the tree construction dispatcher in mainLoop hands every "
                 "token to the current insertion mode or to the foreign-content rules exactly as the standard prescribes (integration "
                 "points, mglyph/malignmark, annotation-xml + svg) through the method of its kind, once, and reports an "
-                "unacknowledged trailing solidus; 113 handlers of seventeen insertion modes (before head, in head, in head noscript, after head, in body, text, in table, in table text, in caption, in column group, in table body, in row, in cell, in select, in frameset, after body, after after body) perform the standard's steps for their tags, "
+                "unacknowledged trailing solidus; 117 handlers of nineteen insertion modes (before head, in head, in head noscript, after head, in body, text, in table, in table text, in caption, in column group, in table body, in row, in cell, in select, in frameset, after body, after after body, after frameset, after after frameset) perform the standard's steps for their tags, "
                 "in order, as a log of abstract tree-builder operations plus the resulting flags/mode/stack depth (bounded "
                 "stand-in: abstract parser/tree with an uninterpreted scope predicate, one handler at a time; "
                 "contracts/inbody_handlers.py); generateImpliedEndTags pops exactly the run of implied-end-tag elements (the "
@@ -331,7 +331,7 @@ prop("C01",
                 "tables (spec/treeconstruction.py); every insertion-mode class handles every token kind.",
      level_note="The property quantifies over the whole parser (23 insertion modes x token kinds x stack shapes); a contract per "
                 "handler method against a transcription of the standard is out of reach of this revision, so what is decided is "
-                "the list above and nothing else -- a change inside a phase method that is not among the 113 handlers under contract (e.g. the adoption agency, "
+                "the list above and nothing else -- a change inside a phase method that is not among the 117 handlers under contract (e.g. the adoption agency, "
                 "every table mode) is NOT noticed. "
                 "Known findings: template unsupported, rb/rtc unsupported, special category lags the standard.",
      not_decided=["insertion-mode handlers other than the 109 listed in contracts/inbody_handlers.py listed in contracts/inbody_handlers.py", "adoption agency algorithm", "foster parenting",
